@@ -3,8 +3,8 @@
    registry snapshot (Model/RegistrySnapshot.v, kernel-checked equal to the live registries in Proofs/RegistryTie.v). *)
 From Coq Require Import String ZArith List Bool.
 Import ListNotations.
-From Verif Require Import Base.PyValue Model.Compile Proofs.CompileProofs.
-From Verif Require Model.RegistrySnapshot.
+From Verif Require Import Base.PyValue Model.Compile Proofs.CompileProofs Model.Link Proofs.LinkProofs.
+From Verif Require Model.RegistrySnapshot Model.Exec Model.Typing.
 Open Scope string_scope.
 Open Scope list_scope.
 Open Scope nat_scope.
@@ -160,4 +160,56 @@ Example C05_mixed_order_by_rejected :
                       FKNone None None (Some ([inl 1%Z], None))
                       [(inr (EBinary "Add" (EColumn "number") (EFunction "sum" [EColumn "number"])), false)]
                       None None false)) = Err EMixedAgg.
+Proof. vm_compute. reflexivity. Qed.
+
+(* ================================================================== link to the executor model (Model/Link.v)
+   A compiled query is lowered to the executor's syntax (Model/Eval.v, Exec.v) and run inside Coq; the correspondence
+   stream "end-to-end" compares the rows with the ones the implementation fetches. *)
+
+(* lowering preserves the announced datatype: in the executor's type system (Model/Typing.v) every target of a
+   lowered query, and every aggregate it allocates, has the datatype the compiler put on the node *)
+Theorem C05_lowering_preserves_datatypes : forall q xq,
+  lower_query q = Some xq ->
+  exists colsT aggT,
+    Link.all_some (map (fun c => Typing.ty_of_name (snd c)) (t_cols (cq_table q))) = Some colsT
+    /\ Link.all_some (map (Typing.agg_type colsT) (Exec.q_aggs xq)) = Some aggT
+    /\ Forall2 (typed_as colsT aggT) (Exec.q_targets xq) (cq_targets q).
+Proof. exact lower_query_typed. Qed.
+Print Assumptions C05_lowering_preserves_datatypes.
+
+(* the lowered form of an accepted statement has the shape the executor relies on: the visible columns are the
+   first n targets, GROUP BY / HAVING / ORDER BY indexes are in range *)
+Theorem C05_lowered_query_shape : forall sch p st q xq,
+  compile sch p st = Ok (CSelect q) -> lower_query q = Some xq ->
+  Exec.q_vis xq = seq 0 (length (visible (cq_targets q)))
+  /\ length (Exec.q_targets xq) = length (cq_targets q)
+  /\ (forall gi, Exec.q_group xq = Some gi -> Forall (fun i => i < length (Exec.q_targets xq)) gi)
+  /\ (forall k, Exec.q_having xq = Some k -> k < length (Exec.q_targets xq))
+  /\ (forall spec, Exec.q_order xq = Some spec -> Forall (fun p => fst p < length (Exec.q_targets xq)) spec).
+Proof. exact lowered_query_shape. Qed.
+Print Assumptions C05_lowered_query_shape.
+
+(* compile >>= lower >>= exec has no third outcome: rows of an accepted statement, the compiler's error exactly when
+   the compiler rejects, or None (statement accepted but outside the lowerable subset, or its evaluation raises) *)
+Theorem C05_run_stmt_outcomes : forall sch p dat st,
+  (exists rows, run_stmt sch p dat st = Some (inl rows) /\ exists q, compile sch p st = Ok (CSelect q))
+  \/ (exists e, run_stmt sch p dat st = Some (inr e) /\ compile sch p st = Err e)
+  \/ (run_stmt sch p dat st = None /\ exists c, compile sch p st = Ok c).
+Proof. exact run_stmt_outcomes. Qed.
+Print Assumptions C05_run_stmt_outcomes.
+
+Theorem C05_run_rejects_iff_compile_rejects : forall sch p dat st e,
+  run sch p dat st = RErr e <-> compile sch p st = Err e.
+Proof. exact run_rejects_iff_compile_rejects. Qed.
+Print Assumptions C05_run_rejects_iff_compile_rejects.
+
+(* end to end inside Coq: SELECT b, sum(a) AS s FROM #v WHERE a > 0 GROUP BY b ORDER BY s DESC *)
+Example C05_run_end_to_end :
+  let v := mk_table "v" [("a", "int"); ("b", "str")] ["a"; "b"] false in
+  let rows := [[VInt 1; VStr [120%Z]]; [VInt 5; VStr [121%Z]]; [VInt 2; VStr [120%Z]]; [VInt 0; VStr [122%Z]]; [VNull; VStr [121%Z]]] in
+  run_stmt [v] PNone [("v", rows)]
+    (SSelect (ESelect (Some [(EColumn "b", None, "b"); (EFunction "sum" [EColumn "a"], Some "s", "sum(a)")])
+                      (FKTable "v") None (Some (EBinary "Greater" (EColumn "a") (lit 0)))
+                      (Some ([inr (EColumn "b")], None)) [(inr (EColumn "s"), true)] None None false))
+  = Some (inl [[VStr [121%Z]; VInt 5]; [VStr [120%Z]; VInt 3]]).
 Proof. vm_compute. reflexivity. Qed.
